@@ -321,22 +321,38 @@ const ALLK: [Kind; 21] = [
 const SHIFTK: [Kind; 14] = [Kind::Sma, Kind::Ema, Kind::Wma, Kind::Min, Kind::Max, Kind::Sd, Kind::Mad, Kind::Tr, Kind::Atr, Kind::Macd, Kind::Bb, Kind::Kc, Kind::Ce, Kind::FastStoch];
 
 fn strategy(forced_k: Option<i32>) -> BoxedStrategy<Case> {
-    let pow2 = (cfg_among(&ALLK, 128, multiplier_any), any::<bool>(), bar_stream(true, 1, 420), match forced_k {
-        Some(k) => Just(k).boxed(),
-        None => (-40i32..=40).boxed(),
-    })
+    // stream lengths scale with the window so that large periods fill and wrap
+    let len_for = |cfg: &Cfg| (3 * cfg.n() + 60).max(200);
+    let pow2 = cfg_among(&ALLK, 600, multiplier_any)
+        .prop_flat_map(move |cfg| {
+            let l = len_for(&cfg);
+            (Just(cfg), any::<bool>(), bar_stream(true, 1, l), match forced_k {
+                Some(k) => Just(k).boxed(),
+                None => (-40i32..=40).boxed(),
+            })
+        })
         .prop_map(|(cfg, scalar, s, k)| Case { cfg, scalar, bars: s.bars, tr: Tr::Pow2(k) });
     if forced_k.is_some() {
         return pow2.boxed();
     }
-    let scale = (cfg_among(&ALLK, 128, multiplier_any), any::<bool>(), bar_stream(true, 1, 420), -4.0f64..4.0).prop_map(|(cfg, scalar, s, e)| Case { cfg, scalar, bars: s.bars, tr: Tr::Scale(X(10f64.powf(e))) });
-    let shift = (cfg_among(&SHIFTK, 128, multiplier_any), any::<bool>(), prop_oneof![bar_stream(true, 1, 420), bar_stream(false, 1, 300)], 0.0f64..1.0, any::<bool>()).prop_map(|(cfg, scalar, s, u, neg)| {
-        let mn = s.bars.iter().map(|b| b.l).fold(f64::INFINITY, f64::min);
-        let mx = s.bars.iter().map(|b| b.h).fold(0.0f64, f64::max);
-        let d = if neg { -0.9 * mn * u } else { mx * 10f64.powf(-3.0 + 6.0 * u) };
-        Case { cfg, scalar, bars: s.bars, tr: Tr::Shift(X(if d.is_finite() { d } else { 1.0 })) }
-    });
-    let mirror = (period(128), stream(Domain::AnySign, 1, 300)).prop_map(|(n, s)| Case {
+    let scale = cfg_among(&ALLK, 600, multiplier_any)
+        .prop_flat_map(move |cfg| {
+            let l = len_for(&cfg);
+            (Just(cfg), any::<bool>(), bar_stream(true, 1, l), -4.0f64..4.0)
+        })
+        .prop_map(|(cfg, scalar, s, e)| Case { cfg, scalar, bars: s.bars, tr: Tr::Scale(X(10f64.powf(e))) });
+    let shift = cfg_among(&SHIFTK, 1100, multiplier_any)
+        .prop_flat_map(move |cfg| {
+            let l = len_for(&cfg);
+            (Just(cfg), any::<bool>(), prop_oneof![bar_stream(true, 1, l), bar_stream(false, 1, l)], 0.0f64..1.0, any::<bool>())
+        })
+        .prop_map(|(cfg, scalar, s, u, neg)| {
+            let mn = s.bars.iter().map(|b| b.l).fold(f64::INFINITY, f64::min);
+            let mx = s.bars.iter().map(|b| b.h).fold(0.0f64, f64::max);
+            let d = if neg { -0.9 * mn * u } else { mx * 10f64.powf(-3.0 + 6.0 * u) };
+            Case { cfg, scalar, bars: s.bars, tr: Tr::Shift(X(if d.is_finite() { d } else { 1.0 })) }
+        });
+    let mirror = (period(1100), stream(Domain::AnySign, 1, 300)).prop_flat_map(|(n, _)| (Just(n), stream(Domain::AnySign, 1, 3 * n + 60))).prop_map(|(n, s)| Case {
         cfg: Cfg { kind: Kind::Max, p: vec![n], m: X(0.0) },
         scalar: true,
         bars: s.vals.iter().map(|&x| RawBar::flat(x, 0.0)).collect(),
@@ -346,7 +362,7 @@ fn strategy(forced_k: Option<i32>) -> BoxedStrategy<Case> {
 }
 
 pub fn run(g: &mut Global) {
-    g.rule = "random: proptest twin runs on x and T(x) compared after every input; T in {scale by 2^k (k in -40..=40; every k visited in the thorough tier), scale by 10^U(-4,4), shift by d with -0.9*min <= d <= 1000*max, mirror}; positive grid-valued streams / valid bars (volume unscaled), periods to 128, all indicators except RSI. Relations: price-valued outputs scale with the factor, dimensionless ones are unchanged (1e-12 relative for 2^k, 1e-9 otherwise, on steps with condition number <= 1e5 and unambiguous ties); under a shift SMA/EMA/WMA/band levels move by d within tau(t)*(M+|d|), MIN/MAX move exactly, SD (variance scale), MAD, TR, ATR, MACD are unchanged within tau(t)*(M+|d|), FAST_STOCH within 1e-7 where (M+|d|)/range <= 1e5; Maximum(x) = -Minimum(-x) exactly. Non-trivial = the transformation is not the identity and at least one comparison was made; sub-class: absolute price level after transformation < 1e-6 or > 1e9; distinct by hash of (kind, parameters, path, transformation, inputs).".into();
+    g.rule = "random: proptest twin runs on x and T(x) compared after every input; T in {scale by 2^k (k in -40..=40; every k visited in the thorough tier), scale by 10^U(-4,4), shift by d with -0.9*min <= d <= 1000*max, mirror}; positive grid-valued streams / valid bars (volume unscaled), periods to 600 (1100 for the shift and mirror relations), all indicators except RSI. Relations: price-valued outputs scale with the factor, dimensionless ones are unchanged (1e-12 relative for 2^k, 1e-9 otherwise, on steps with condition number <= 1e5 and unambiguous ties); under a shift SMA/EMA/WMA/band levels move by d within tau(t)*(M+|d|), MIN/MAX move exactly, SD (variance scale), MAD, TR, ATR, MACD are unchanged within tau(t)*(M+|d|), FAST_STOCH within 1e-7 where (M+|d|)/range <= 1e5; Maximum(x) = -Minimum(-x) exactly. Non-trivial = the transformation is not the identity and at least one comparison was made; sub-class: absolute price level after transformation < 1e-6 or > 1e9; distinct by hash of (kind, parameters, path, transformation, inputs).".into();
     g.assumptions = vec![
         "RSI is excluded (fixed 0.1 seed), as the property states".into(),
         "arbitrary-factor relations for dimensionless outputs are checked only where every comparison the implementation makes (flat-window test, consecutive closes for OBV, consecutive typical prices for MFI) is exactly equal or separated by >= 1e-9 relative".into(),
